@@ -275,7 +275,9 @@ fn feed_snapshot(ctx: &mut Ctx, pools: &mut Pools, ints: &[i32], origin: &str, a
     let bytes = if as_bytes { ints_to_bytes(ints) } else { Vec::new() };
     let input_bytes = if as_bytes { bytes.len() } else { ints.len() * 4 };
     let case = json!({"kind": "snapshot", "origin": origin, "as_bytes": as_bytes, "ints": if ints.len() <= 400 { json!(ints) } else { json!({"len": ints.len(), "head": &ints[..40]}) }});
-    let mut snap = Snap::empty();
+    // the destination is sometimes a reused object that held an accepted snapshot before
+    // (Storage's free list does that): what it held must not shine through
+    let mut snap = if !pools.snaps.is_empty() && ints.len() % 3 == 0 { pools.snaps[ints.len() % pools.snaps.len()].0.clone() } else { Snap::empty() };
     let mut tmp: Vec<i32> = Vec::new();
     let (r, peak) = with_peak(|| {
         catch(|| {
@@ -353,7 +355,7 @@ fn feed_delta(ctx: &mut Ctx, pools: &mut Pools, ints: &[i32], origin: &str, as_b
             ctx.count("deltas_accepted", 1);
             // apply to accepted snapshots
             for (si, (s, sbytes)) in pools.snaps.iter().enumerate().rev().take(6) {
-                let mut out = Snap::empty();
+                let mut out = if si % 2 == 0 { pools.snaps[(si + 1) % pools.snaps.len()].0.clone() } else { Snap::empty() };
                 let (r, peak) = with_peak(|| {
                     catch(|| {
                         let mut w = Warnings::new();
